@@ -51,6 +51,9 @@ func init() {
 			"\t\t\t\t\tcontinuation = !f.IsFIN()\n\t\t\t\t\tif !f.Opcode().IsContinuation() {\n\t\t\t\t\t\terr = ErrExpectedContinuation\n\t\t\t\t\t}", "\t\t\t\t\tcontinuation = !f.IsFIN()", "C15-R4"},
 		mutant{"message limit not enforced (async)", "codec/websocket/stream.go",
 			"\t\t\t\tif readBytes > s.maxMessageSize || n != f.PayloadLength() {\n\t\t\t\t\terr = ErrMessageTooBig\n\t\t\t\t\ts.AsyncClose(", "\t\t\t\tif n != f.PayloadLength() {\n\t\t\t\t\terr = ErrMessageTooBig\n\t\t\t\t\ts.AsyncClose(", "C15-R4"},
+		mutant{"size limit applied before the fragment is counted (async)", "codec/websocket/stream.go",
+			"\t\t\t\tn := copy(b[readBytes:], f.Payload())\n\t\t\t\treadBytes += n\n\n\t\t\t\tif readBytes > s.maxMessageSize || n != f.PayloadLength() {\n\t\t\t\t\terr = ErrMessageTooBig\n\t\t\t\t\ts.AsyncClose(",
+			"\t\t\t\tn := copy(b[readBytes:], f.Payload())\n\n\t\t\t\tif readBytes > s.maxMessageSize || n != f.PayloadLength() {\n\t\t\t\t\terr = ErrMessageTooBig\n\t\t\t\t\ts.AsyncClose(", "C15-R4"},
 		mutant{"frame limit checked after buffering", "codec/websocket/frame_codec.go",
 			"\tif payloadLength < 0 || payloadLength > c.maxMessageSize {\n\t\t// A 64-bit length with the top bit set comes out negative.\n\t\tc.decodeFrame = nil\n\t\treturn nil, ErrPayloadOverMaxSize\n\t}\n", "", "C15-R5"},
 	)
@@ -575,6 +578,44 @@ func runC15(c *Ctx) {
 				}
 			}
 			c.check(good, fn, "message too big", fn.Pos(), "size limit and truncation are reported", "the message size rule (total > maxMessageSize or payload did not fit the buffer) is missing or weakened: an oversized or truncated message is delivered as data")
+			// ... and the total compared includes the fragment just copied
+			fresh := false
+			eachInstr(fn, func(in ssa.Instruction) {
+				bo, ok := in.(*ssa.BinOp)
+				if !ok || bo.Op != token.GTR || !loadOfField(bo.Y, w.maxMsg) {
+					return
+				}
+				x := stripConv(bo.X)
+				// blocking reader: total + copy(...)
+				if add, ok := x.(*ssa.BinOp); ok && add.Op == token.ADD {
+					for _, op := range []ssa.Value{add.X, add.Y} {
+						if cc, ok := stripConv(op).(*ssa.Call); ok {
+							if b, ok := cc.Call.Value.(*ssa.Builtin); ok && b.Name() == "copy" {
+								fresh = true
+							}
+						}
+					}
+				}
+				// asynchronous reader: a load of the captured total, after the store of total + copy(...)
+				if u, ok := x.(*ssa.UnOp); ok && u.Op == token.MUL {
+					eachInstr(fn, func(y ssa.Instruction) {
+						st, ok := y.(*ssa.Store)
+						if !ok || st.Addr != u.X || !dominatesInstr(st, u) {
+							return
+						}
+						if add, ok := stripConv(st.Val).(*ssa.BinOp); ok && add.Op == token.ADD {
+							for _, op := range []ssa.Value{add.X, add.Y} {
+								if cc, ok := stripConv(op).(*ssa.Call); ok {
+									if b, ok := cc.Call.Value.(*ssa.Builtin); ok && b.Name() == "copy" {
+										fresh = true
+									}
+								}
+							}
+						}
+					})
+				}
+			})
+			c.check(fresh, fn, "message size uses the new total", fn.Pos(), "the limit is applied to the total including the fragment just copied", "the message size limit is applied to the total before the current fragment is added: a message that exceeds the maximum only with its last fragment is delivered")
 		}
 	}
 
@@ -609,6 +650,8 @@ func runC15(c *Ctx) {
 		if n == 0 {
 			c.bad(dec, "frame yielded", dec.Pos(), "Decode never succeeds")
 		}
+		// the limit is only as good as the length it is applied to: the accessor must hand the wire value through unmodified
+		checkLengthTables(c, "C15")
 	}
 }
 
